@@ -27,6 +27,11 @@ from sim.core import OK, VIOLATION, DISCARD, sub_rng
 STEP_BUDGET = 40_000
 CANARY_EXPR = "__import__('verif_canary').hit('{tag}')"
 CANARY_STMT = "import verif_canary; verif_canary.hit('{tag}')"
+# the same side effect dressed as other kinds of text a lenient parser might accept
+CANARY_SHAPES = [
+    "{c}", "{c}", "({c})", " {c}", "1 if {c} else 0", "0+{c}", "2**{c}", "-3 + len(str({c}))", "3/4 if {c} else 1/4",
+    "[{c}]", "[1, {c}]", "({c},)", "{{1: {c}}}", "f'{{{c}}}'", "(lambda: {c})()", "1.5*{c}", "7 and {c}", "0x10 + {c}",
+]
 OUT_FLAGS = list("jsdSCWJLlGgoOc…ṪṡP")
 FAIL_TARGETS = ["add", "multiply", "increment", "decrement", "vy_str", "is_even", "halve", "negate", "vy_sum", "merge",
                 "length", "head", "tail", "reverse", "deep_flatten", "vy_repr", "uniquify", "inclusive_one_range"]
@@ -67,7 +72,7 @@ class C19(core.Check):
     id = "C19"
     title = "Online mode contains the program: no host output, no evaluation of user text"
     tiers = {
-        "quick": dict(runs=9_000, batch=150, wall=85),
+        "quick": dict(runs=6_000, batch=100, wall=85),
         "thorough": dict(runs=150_000, batch=300, wall=840),
     }
     components_real = ["vyxal/main.py execute_vyxal (online and offline)", "vyxal/helpers.py vy_eval, get_input", "vyxal/"
@@ -192,7 +197,9 @@ class C19(core.Check):
 
         def can(kind="expr"):
             tag[0] += 1
-            return (CANARY_STMT if kind == "stmt" else CANARY_EXPR).format(tag=f"k{tag[0]}")
+            if kind == "stmt":
+                return CANARY_STMT.format(tag=f"k{tag[0]}")
+            return rw.choice(CANARY_SHAPES).format(c=CANARY_EXPR.format(tag=f"k{tag[0]}"))
 
         uses_eval = False
         if rw.random() < 0.55:
@@ -214,12 +221,18 @@ class C19(core.Check):
                     node = ["t", f"`{s}` {route}"]
                 nodes.insert(rw.randint(0, len(nodes)), node)
                 uses_eval = True
+        if rw.random() < 0.04:
+            # a lot of output in one run (size thresholds in the print path): <count> ( `x` <m> * ₴ ) then more prints
+            total = rw.choice([1 << 15, 1 << 16, 1 << 17, 1 << 17, 1 << 18, 1 << 19])
+            m_ = 3000
+            flood = ["t", f"{total // m_ + 2} ( `x` {m_} * ₴ ) `end` ,"]
+            nodes.insert(rw.randint(0, len(nodes)), flood)
         n_in = rw.choice([0, 0, 1, 2, 3])
         inputs = []
         for _ in range(n_in):
             x = rw.random()
             if taint and x < 0.6:
-                inputs.append(rw.choice([can(), "[" + can() + "]", "[1, " + can() + "]", can("stmt"), "(" + can() + ",)"]))
+                inputs.append(rw.choice([can(), can(), can(), can("stmt")]))
             elif x < 0.75:
                 inputs.append(str(rw.randint(0, 9)))
             elif x < 0.9:
@@ -337,6 +350,9 @@ class C19(core.Check):
         has_canary = "verif_canary" in text or any("verif_canary" in i for i in inputs)
         mode_dependent = case.get("uses_eval") or any(t in text for t in ("E", "†", "Ė", "¨U")) or "c" in flags
         hist = self.hist(case, text)
+        flood = "( `x` " in text
+        if flood:
+            cov.add("flood-output")
 
         phase = ["fault-free"]
 
@@ -397,7 +413,8 @@ class C19(core.Check):
                 ks = [max(1, min(on["steps"] - 1, int(fault["frac"] * on["steps"])))]
             else:
                 n = on["steps"]
-                ks = list(range(1, n)) if n <= 60 else sorted({max(1, int(n * i / 40)) for i in range(1, 40)})
+                pts = 4 if flood else 40
+                ks = list(range(1, n)) if n <= 60 else sorted({max(1, int(n * i / pts)) for i in range(1, pts)})
             for k in ks:
                 r = self.exec_once(text, flags, inputs, True, kill_at=k)
                 steps += r["steps"]
